@@ -94,6 +94,10 @@ func (k *saveKeyValueStorage) ProcessBuiltinFunction(
 		}
 	}
 
+	// pairs whose value is unchanged skip the check inside the loop
+	if input.GasProvided < useGas {
+		return nil, ErrNotEnoughGas
+	}
 	vmOutput.GasRemaining -= useGas
 
 	return vmOutput, nil
